@@ -59,7 +59,7 @@ def diagnose(s, rows, l, clause, el):
         d = {"J": "junction", "T": "tank", "R": "reservoir"}[nd["type"]]
         if nd["type"] == "T":
             d += "-vcurve" if nd["vcurve"] else ""
-            if nd["vcurve"] and clause == "C06.tank_limits" and l > 1:
+            if nd["vcurve"] and clause in ("C06.tank_limits", "C05.no_overshoot") and l > 1:
                 # would the trial full hydraulic step from the previous solved row have left the curve's domain?
                 import numpy as np
                 lv = [p[0] for p in nd["vcurve"]]
